@@ -21,21 +21,45 @@ import (
 // ---- Registry (C16) and the service half of C06 ----
 
 type regState struct {
-	w      *world.World
-	svc    *world.Svc
-	sc     map[string]*world.OpClient // service connections
-	ports  map[string]string          // listener name -> port
-	hold   map[string]net.Listener    // ports the harness occupies to make a start fail
-	rng    *rand.Rand
-	seq    int
-	stuck  bool
+	w     *world.World
+	svc   *world.Svc
+	sc    map[string]*world.OpClient // service connections
+	ports map[string]string          // listener name -> port
+	hold  map[string]net.Listener    // ports the harness occupies to make a start fail
+	rng   *rand.Rand
+	seq   int
+	stuck bool
 }
 
+// freePort hands out loopback ports from a range private to this harness process (shards run in
+// parallel: a port that merely looks free could be taken by a sibling a moment later).
+var (
+	portBase = 0
+	portNext = 0
+	// PortShard is set by main to the shard index of this process
+	PortShard = 0
+)
+
 func freePort() string {
-	l, err := net.Listen("tcp", "127.0.0.1:0")
-	must(err)
-	defer l.Close()
-	return fmt.Sprint(l.Addr().(*net.TCPAddr).Port)
+	if portBase == 0 {
+		// one private range per shard, below the ephemeral port range (a probe dialling a free port
+		// from that very port would connect to itself)
+		portBase = 20000 + (PortShard%16)*700
+	}
+	for tries := 0; tries < 700; tries++ {
+		p := portBase + portNext%700
+		portNext++
+		l, err := net.Listen("tcp", fmt.Sprintf("127.0.0.1:%d", p))
+		if err != nil {
+			continue
+		}
+		l.Close()
+		if l2, err := net.Listen("tcp", fmt.Sprintf("0.0.0.0:%d", p)); err == nil {
+			l2.Close()
+			return fmt.Sprint(p)
+		}
+	}
+	panic("harness-error: no free port in range")
 }
 
 func uaOf(v int) string { return fmt.Sprintf("VerifAgent/%d.0", v) }
@@ -189,9 +213,13 @@ func RunRegistry(behs [][]Step, tr *Trace, env Env, sum *Summary) {
 							occupied.Close()
 						}
 					case "smb":
-						call(func() { err = w.TS.ListenerStart(handlers.LISTENER_PIVOT_SMB, handlers.SMBConfig{Name: a, PipeName: "pipe-" + a}) })
+						call(func() {
+							err = w.TS.ListenerStart(handlers.LISTENER_PIVOT_SMB, handlers.SMBConfig{Name: a, PipeName: "pipe-" + a})
+						})
 					case "ext":
-						call(func() { err = w.TS.ListenerStart(handlers.LISTENER_EXTERNAL, handlers.ExternalConfig{Name: a, Endpoint: a + "-ep"}) })
+						call(func() {
+							err = w.TS.ListenerStart(handlers.LISTENER_EXTERNAL, handlers.ExternalConfig{Name: a, Endpoint: a + "-ep"})
+						})
 					}
 					ok = err == nil
 				case "AddSvcType":
